@@ -11,3 +11,9 @@ func VerifFinderPatterns() [][]int {
 	}
 	return out
 }
+
+// VerifFinderLimits returns the maximum average and maximum individual variance
+// RSSReader_parseFinderValue accepts.
+func VerifFinderLimits() [2]float64 {
+	return [2]float64{rssReader_MAX_AVG_VARIANCE, rssReader_MAX_INDIVIDUAL_VARIANCE}
+}
